@@ -27,33 +27,78 @@ def cases(draw, tier, det):
                           (6, st.integers(n_min, max(n_min, nmax)))])
     bw = params.get("bandwidth", params.get("min_segment_length", 1))
     kind = draw(st.sampled_from(["structured", "structured", "structured", "any"]))
+    # structural choices first, bulk data last (see strategies/data.py)
+    case = {"detector": det, "params": params, "X": None,
+            "container": draw(st.sampled_from(["ndarray", "DataFrame", "DataFrame"])),
+            "index": draw(D.index_spec(D.INDEX_KINDS + D.REPEAT_INDEX_KINDS)), "columns": draw(st.sampled_from(D.COLUMN_KINDS)),
+            # afterwards, on the same fitted detector: predict on a shorter series - either a new object, or the caller's
+            # own frame shortened in place - or on the same buffer refilled with other values
+            "second": draw(st.sampled_from([None, "shrink_inplace", "predict_shorter", "refill", None])),
+            "n2_pick": draw(st.integers(0, 1000)), "drop": draw(st.sampled_from(["tail", "head"]))}
+    if case["second"] == "shrink_inplace":
+        case["container"] = "DataFrame"
+        if case["index"]["kind"] in D.REPEAT_INDEX_KINDS:  # rows are dropped by label: labels must be unique
+            case["index"] = {"kind": "datetime_h", "start": case["index"]["start"]}
     if kind == "any":
-        X = draw(D.any_matrix(n, p))
+        case["X"] = draw(D.any_matrix(n, p))
     else:
-        X, _ = draw(D.structured_matrix(n, p, boundary_positions=(0, 1, bw - 1, bw, n - bw, n - 1)))
-    return {"detector": det, "params": params, "X": X}
+        case["X"], _ = draw(D.structured_matrix(n, p, boundary_positions=(0, 1, bw - 1, bw, n - bw, n - 1)))
+    if case["second"] == "refill":
+        case["X2"] = draw(D.any_matrix(n, p))
+    case["n_min"] = n_min
+    return case
+
+
+def to_container(case, X):
+    import pandas as pd
+
+    if case.get("container", "ndarray") == "ndarray":
+        return np.array(X, dtype=float)
+    cols = D.column_labels(case["columns"], X.shape[1])
+    return pd.DataFrame(np.array(X, dtype=float), index=D.build_index(case["index"], len(X)),
+                        columns=pd.RangeIndex(X.shape[1]) if case["columns"] == "default" else cols)
 
 
 def run_detector(case):
-    """fit + predict. Returns (detector, y, outcome)."""
+    """fit + predict (+ a second predict on the same detector). Returns (detector, y, outcome, (y2, n2) or None)."""
     det = K.build(K.detector_spec(case["detector"], case["params"]))
     X = np.asarray(case["X"], dtype=float)
+    n = len(X)
+    obj = to_container(case, X)
+    second = case.get("second")
+    n_min = case.get("n_min", n)
+    n2 = n_min + case.get("n2_pick", 0) % (n - n_min) if n > n_min else None
+    later = None
     try:
         with sut(f"{case['detector']}.fit/predict", allowed=(RuntimeError,)):
-            det.fit(X)
-            y = det.predict(X)
+            det.fit(obj)
+            y = det.predict(obj)
+            if second == "refill":
+                X2 = np.asarray(case["X2"], dtype=float)
+                if isinstance(obj, np.ndarray):
+                    obj[:] = X2
+                else:
+                    obj.iloc[:, :] = X2
+                later = (det.predict(obj), n)
+            elif second == "predict_shorter" and n2 is not None:
+                part = X[:n2] if case["drop"] == "tail" else X[n - n2:]
+                later = (det.predict(to_container(case, part)), n2)
+            elif second == "shrink_inplace" and n2 is not None and not isinstance(obj, np.ndarray) and obj.index.is_unique:
+                rows = np.arange(n2, n) if case["drop"] == "tail" else np.arange(0, n - n2)
+                obj.drop(index=obj.index[rows], inplace=True)  # the caller shortens their own frame
+                later = (det.predict(obj), n2)
     except RuntimeError as e:
         if "positive definite" in str(e):
-            return det, None, "not_pd"
+            return det, None, "not_pd", None
         raise Violation(f"unexpected RuntimeError: {e}")
-    return det, y, "ok"
+    return det, y, "ok", later
 
 
 def check(case):
     name, params = case["detector"], case["params"]
     X = np.asarray(case["X"], dtype=float)
     n, p = X.shape
-    det, y, outcome = run_detector(case)
+    det, y, outcome, later = run_detector(case)
     classes = []
     if outcome == "not_pd":
         scorer_specs = [v for v in params.values() if isinstance(v, dict) and "cls" in v]
@@ -69,6 +114,14 @@ def check(case):
         return {"nontrivial": False, "classes": ["negative_tuned_threshold_excluded"]}
     info = K.check_wellformed(name, params, n, p, y)
     ev = info["events"]
+    if later is not None:
+        try:
+            K.check_wellformed(name, params, later[1], p, later[0])
+        except Violation as v:
+            raise Violation(f"second predict on the same detector ({case['second']}, n = {later[1]}): {v.message}", **v.details)
+        classes.append(f"second={case['second']}")
+    if case.get("container") == "DataFrame":
+        classes.append(f"index={case['index']['kind']}")
     if ev:
         classes.append("has_detection")
     if n == (2 * params.get("bandwidth", 0) or 0) or n == 2 * params.get("min_segment_length", -1) or \
